@@ -26,6 +26,7 @@ from dataclasses import dataclass, field, replace
 
 from .core import AnalysisError, norm
 from .astutil import walk_local
+from .canon import _dc
 
 INF = 10 ** 6
 NINF = -(10 ** 6)
@@ -783,7 +784,7 @@ def _const_int(n):
 def _load(t):
     import copy
 
-    n = copy.deepcopy(t)
+    n = _dc(t)
     for x in ast.walk(n):
         if hasattr(x, "ctx"):
             x.ctx = ast.Load()
